@@ -226,7 +226,8 @@ loop:
 		}
 		return ftoken(f), len(s)
 	}
-	n, err := strconv.ParseInt(s, 0, 64)
+	// always decimal: a leading zero does not make it octal
+	n, err := strconv.ParseInt(s, 10, 64)
 	if err != nil {
 		return token{}, -1
 	}
